@@ -1,4 +1,6 @@
-package sess
+// Package freepass is the parent side of the separate free-running pass (see DESIGN.md 2.8): it runs
+// $VERIF_BUILD/racepass, built with -race by the check driver, and turns its findings into violations.
+package freepass
 
 import (
 	"bufio"
@@ -17,18 +19,22 @@ import (
 	"github.com/xelaj/mtproto/zverif/vr"
 )
 
-// RacePass runs the separate free-running pass for a session check: $VERIF_BUILD/racepass (built with -race by
-// the check driver) executes the scenario set of this property with real goroutines on all cores.
+// Run executes the free-running pass for one property: the scenario set of that property runs with real
+// goroutines on all cores (no scheduler) in a binary built with -race.
 //
-//   - A wrong call result, a panic in a caller or the death of the process (runtime fatal error such as
-//     "concurrent map writes") in a free run is a demonstrated failure of the property: VIOLATION.
-//   - A report of the race detector whose access is a map operation (runtime.mapaccess/mapassign/mapdelete on
-//     top of the stack) is a VIOLATION too: the runtime terminates the process when such accesses overlap.
-//   - Any other report of the race detector is recorded in the evidence and printed as a DIAGNOSTIC line. It
-//     is not a verdict on the property (an unordered pair of word-sized accesses does not by itself falsify
-//     the statement), but it is exactly what the cooperative scheduler cannot see.
+//   - A wrong result (a value that differs from what the same operation gives sequentially / from what the
+//     reference promises), a panic, a stream the reference server rejects, or the death of the process in a
+//     free run is a demonstrated failure of the property: VIOLATION.
+//   - A report of the Go race detector whose innermost repository frames lie in the library is a VIOLATION
+//     as well: under the Go memory model an execution with a data race has no defined behaviour beyond
+//     word-sized reads ("implementations may report the race and terminate the program"; maps and multi-word
+//     values may be corrupted), so none of the statements about concurrent use can be relied on. The unchanged
+//     tree is free of such reports (its three racy pairs were repaired, see known_findings.jsonl).
 //   - Runs that hit the internal deadline are counted, never judged (no wall-clock oracle).
-func RacePass(run *vr.Run, set string, rounds int) {
+//
+// The pass samples schedules; it complements the exhaustive exploration, whose cooperative hand-offs hide
+// unsynchronised accesses from any detector, and whose choice points are the synchronisation operations only.
+func Run(run *vr.Run, set string, rounds int) {
 	bin := filepath.Join(os.Getenv("VERIF_BUILD"), "racepass")
 	if _, err := os.Stat(bin); err != nil {
 		run.Set("free_running_pass", "not run: "+bin+" missing")
@@ -86,25 +92,52 @@ func RacePass(run *vr.Run, set string, rounds int) {
 		}
 		run.Violation("free-run|process-died|"+vr.MsgClass(first)+"|"+firstRepoFrame(msg), fmt.Sprintf("free-running pass: the process died: %s (%v)", first, err), map[string]any{"free_run": set, "stderr_head": head(msg, 1500)})
 	}
-	races, onMap := parseRaces(logBase)
+	races, onMap, first := parseRaces(logBase)
 	var sites []string
 	for k := range races {
 		sites = append(sites, k)
 	}
 	sort.Strings(sites)
 	for _, k := range sites {
+		what := "data race"
 		if onMap[k] {
-			// unsynchronised concurrent access to a Go map is not a benign race: the runtime terminates the
-			// process ("fatal error: concurrent map writes" / "concurrent map read and map write", not
-			// recoverable) whenever it observes the overlap, so every caller loses its answer
-			run.Violation("free-run|concurrent-map-access|"+k, fmt.Sprintf("free-running pass: unsynchronised concurrent access to a map (%s, %d reports): the Go runtime kills the process when the accesses overlap", k, races[k]),
-				map[string]any{"free_run": set, "site": k})
-			continue
+			what = "unsynchronised concurrent access to a map (the runtime kills the process when the accesses overlap)"
 		}
-		fmt.Printf("DIAGNOSTIC data-race property=%s %s (x%d)\n", run.ID, k, races[k])
+		run.Violation("free-run|data-race|"+k, fmt.Sprintf("free-running pass (%s): %s between %s, %d reports of the race detector", set, what, k, races[k]),
+			map[string]any{"free_run": set, "site": k, "first_report": head(first[k], 3000)})
 	}
 	info["data_race_sites_reported_by_the_go_race_detector"] = sites
 	run.Set("free_running_pass", info)
+}
+
+// Rounds: free runs per scenario for a tier.
+func Rounds(run *vr.Run) int {
+	if run.Thorough() {
+		return 1000
+	}
+	return 60
+}
+
+// MaybeReplay: when --replay names a finding of the free-running pass, the pass is run again and the check
+// ends (the pass samples schedules; the detector's reports depend little on timing, wrong results may).
+func MaybeReplay(run *vr.Run) {
+	if run.ReplayPath == "" {
+		return
+	}
+	b, err := os.ReadFile(run.ReplayPath)
+	if err != nil {
+		return
+	}
+	var w struct {
+		Case struct {
+			FreeRun string `json:"free_run"`
+		} `json:"case"`
+	}
+	if json.Unmarshal(b, &w) != nil || w.Case.FreeRun == "" {
+		return
+	}
+	Run(run, w.Case.FreeRun, Rounds(run))
+	run.Finish()
 }
 
 func head(s string, n int) string {
@@ -128,9 +161,10 @@ func firstRepoFrame(stack string) string {
 
 // parseRaces reads the detector's log files and returns site -> count, a site being the pair of innermost
 // repository functions of the two conflicting accesses.
-func parseRaces(logBase string) (map[string]int, map[string]bool) {
+func parseRaces(logBase string) (map[string]int, map[string]bool, map[string]string) {
 	out := map[string]int{}
 	onMap := map[string]bool{}
+	first := map[string]string{}
 	files, _ := filepath.Glob(logBase + ".*")
 	for _, f := range files {
 		b, err := os.ReadFile(f)
@@ -145,14 +179,32 @@ func parseRaces(logBase string) (map[string]int, map[string]bool) {
 			paras := strings.Split(strings.TrimSpace(blk), "\n\n")
 			var fr []string
 			isMap := false
+			inLibrary := false
 			for _, p := range paras {
 				if strings.Contains(p, "Goroutine ") && strings.Contains(p, "created at") {
 					break
 				}
 				fr = append(fr, firstRepoFrame(p))
-				if l := strings.Split(p, "\n"); len(l) > 1 && strings.HasPrefix(strings.TrimSpace(l[1]), "runtime.map") {
-					isMap = true // the access itself is a map operation (mapaccess / mapassign / mapdelete / mapiter)
+				// the access itself: the topmost frame that is not the runtime's
+				for _, l := range strings.Split(p, "\n")[1:] {
+					t := strings.TrimSpace(l)
+					if strings.HasPrefix(t, "/") || t == "" {
+						continue // file:line
+					}
+					if strings.HasPrefix(t, "runtime.") {
+						if strings.HasPrefix(t, "runtime.map") {
+							isMap = true // mapaccess / mapassign / mapdelete / mapiter
+						}
+						continue
+					}
+					if strings.HasPrefix(t, "github.com/xelaj/") && !strings.Contains(t, "/zverif/") {
+						inLibrary = true
+					}
+					break
 				}
+			}
+			if !inLibrary {
+				continue // both accesses are made by harness code (or a third-party package called by it)
 			}
 			if len(fr) < 2 || (fr[0] == "?" && fr[1] == "?") {
 				continue // both accesses in harness or library code
@@ -160,10 +212,13 @@ func parseRaces(logBase string) (map[string]int, map[string]bool) {
 			sort.Strings(fr[:2])
 			k := fr[0] + " <-> " + fr[1]
 			out[k]++
+			if first[k] == "" {
+				first[k] = strings.TrimSpace(blk)
+			}
 			if isMap {
 				onMap[k] = true
 			}
 		}
 	}
-	return out, onMap
+	return out, onMap, first
 }
